@@ -21,6 +21,7 @@ mod poolmt;
 mod cfgp;
 mod toc;
 mod tlsch;
+mod snie;
 mod server;
 mod tls;
 mod tcpc;
@@ -60,6 +61,7 @@ fn gen(stream: &str, seed: u64, n: u64) -> Vec<String> {
                 "cfgp" => cfgp::gen(&mut r, i),
                 "toc" => toc::gen(&mut r, i),
                 "tlsch" => tlsch::gen(&mut r, i),
+                "snie" => snie::gen(&mut r, i),
                 "srv" => server::gen(&mut r, i),
                 "tls" => tls::gen(&mut r, i),
                 "tcpc" => tcpc::gen(&mut r, i),
@@ -99,6 +101,7 @@ fn run_line(line: &str) -> String {
         "cfgp" => cfgp::run(&toks),
         "toc" => toc::run(&toks),
         "tlsch" => tlsch::run(&toks),
+        "snie" => snie::run(&toks),
         "srv" => server::run(&toks),
         "tls" => tls::run(&toks),
         "tcpc" => tcpc::run(&toks),
